@@ -545,6 +545,11 @@ def run(rep, tier):
         clause_model(get_facts('K1'), rep, tier)
     except AnalysisBroken as ex:
         rep.broken.append(str(ex))
+    # the shape rules on the handler are decided together with the exploration that interprets the same event methods
+    for r_ in ('E9.stack-effects', 'E2.key-lookup', 'E2.build-mode', 'E2.restore-on-pop'):
+        rep.corroborate(r_, 'E6.schema-merge')
+    for pre_ in ('C19.a:', 'C19.b:', 'C19.c:', 'C19.d:'):
+        rep.corroborate_floor(pre_, 'E6.schema-merge')
     rep.trust('clang 14 front end and CFG builder', 'std::vector emplace_back/push_back add one element, pop_back removes one, back() reads the last')
     rep.assumptions += [
         'decides the mode and context-stack discipline of SchemaHandler (Start/End stack effects agree, saved contexts are restored before being popped, no existing object is consulted while a new value is built, Key accepts exactly found members)',
